@@ -315,7 +315,7 @@ pub fn gen(scenario: &str, tier: Tier, seed: u64) -> (RunCfg, Vec<Op>) {
 	for k in &kinds {
 		let nkeys = match scenario {
 			"reindex" => 0, // filled below
-			"btree" => (if quick { r.range(4, 48) } else { r.range(8, 260) }) as usize,
+			"btree" => (if quick { *r.pick(&[6u64, 12, 24, 48, 90, 140]) } else { r.range(8, 400) }) as usize,
 			_ => (if quick { r.range(3, 24) } else { r.range(4, 64) }) as usize,
 		};
 		let keys = gen_keys(&mut r, *k, nkeys, salt_zero, long_keys);
@@ -356,6 +356,32 @@ pub fn gen(scenario: &str, tier: Tier, seed: u64) -> (RunCfg, Vec<Op>) {
 
 fn gen_tx(r: &mut Rng, cfg: &RunCfg, big_max: u32, tree_state: &mut crate::gen2::TreeGen) -> Vec<(u8, TxOp)> {
 	let ncols = cfg.cols.len();
+	if cfg.scenario == "btree" && r.chance(1, 4) {
+		// bulk insert / removal of a run of neighbouring keys: splits, merges, rebalancing of
+		// inner nodes and root changes need many keys moving at once
+		let bcols: Vec<u8> = (0..ncols).filter(|c| cfg.cols[*c].kind.is_btree()).map(|c| c as u8).collect();
+		if !bcols.is_empty() {
+			let c = *r.pick(&bcols);
+			let mut order: Vec<usize> = (0..cfg.cols[c as usize].keys.len()).collect();
+			order.sort_by(|a, b| cfg.cols[c as usize].keys[*a].cmp(&cfg.cols[c as usize].keys[*b]));
+			let n = order.len();
+			if n > 0 {
+				let start = r.below(n as u64) as usize;
+				let count = std::cmp::min(n - start, r.range(1, 100) as usize);
+				let remove = r.chance(2, 5);
+				let mut tx = Vec::new();
+				for i in start..start + count {
+					let k = order[i];
+					if remove {
+						tx.push((c, TxOp::Del(k)));
+					} else {
+						tx.push((c, TxOp::Set(k, ValSpec { len: r.range(0, 40) as u32, seed: r.next(), compressible: false })));
+					}
+				}
+				return tx
+			}
+		}
+	}
 	if cfg.scenario == "reindex" && r.chance(2, 5) {
 		// bulk insert into the collision group so that one index page overflows
 		let ucols: Vec<u8> =
